@@ -57,6 +57,9 @@ CHECKS = {
     note=TB + " A-CANON: canonicalize() is a parameter (oracle) of the model.",
     technique="Coq proof (induction over components) + exhaustive model/implementation differential check",
     ref="5/C15"),
+ "C16": dict(text="Proof (Coq): in the SQLite WAL abstraction, transactions that begin IMMEDIATE or never write after a read never get SQLITE_BUSY, for any number of connections and any interleaving (C16_no_busy); the transaction sites regenerated from the CURRENT source by tools/anchors.py all obey the rule (C16_sites_ok, re-checked on every run), hence no command of the code can fail with a busy error (C16_code_no_busy); the rule is necessary (two-connection refutation, findings F10a/F16). Ties: the abstraction is compared with the real SQLite library on every interleaving of two transactions; Anchors.v is regenerated from the working tree. Oracle: stress runs of simultaneous commands beside a -j4 build (incl. first invocations on an empty project), looking for busy/locked errors, lost dependency records and integrity_check failures; when the proof obligation breaks the stress run is used to find a concrete failing command.",
+    note=TB + " tools/anchors.py (translator and its per-site access-pattern table) is trusted; A-TIMEOUT.",
+    technique="Coq proof over a WAL locking abstraction + obligation regenerated from the source on every run + differential test of the abstraction against SQLite", ref="5/C16"),
  "C17": dict(text="Proof (Coq): the three query commands change nothing but the run-id counter (files, rows, dependency records identical); targets and sources are disjoint; what is in neither list is a special name or a file missing on disk; the ood walk touches no file. The two bounds on redo-ood are decided against the implementation. " + SERIAL,
     note=TB + " redo-ood's rolled-back write is modelled as discarded.",
     technique="Coq proof of read-only/partition facts + model/implementation differential check with query commands at every point", ref="5/C17"),
